@@ -262,6 +262,17 @@ class Realiser:
         return mac["build"](ops(st["mv"]), st["mv"], args, st.get("p", {}))
 
     def model_of(self, md):
+        if md["kind"] == "ml_only":  # no default-domain node, no default-domain import
+            import onnx
+            from onnx import TensorProto as TP
+            from onnx import helper as h
+
+            g = h.make_graph([h.make_node("Scaler", ["a"], ["b"], domain="ai.onnx.ml", offset=[0.5], scale=[2.0])],
+                             "mlonly", [h.make_tensor_value_info("a", TP.FLOAT, [2, 3])],
+                             [h.make_tensor_value_info("b", TP.FLOAT, [2, 3])])
+            m = h.make_model(g, opset_imports=[h.make_operatorsetid("ai.onnx.ml", md["mlv"])], ir_version=8)
+            onnx.checker.check_model(m, full_check=True)
+            return m
         if md["kind"] == "if_ml":
             from spox import build
 
@@ -310,7 +321,7 @@ def np_stmt(st, env, c):
     if op == "inline":
         md = st["model"]
         a = env[st["args"][0]]
-        if md["kind"] == "if_ml":
+        if md["kind"] in ("if_ml", "ml_only"):
             return ((a - F32(0.5)) * F32(2.0)).astype(F32)
         if md["kind"] == "old":
             return OLD_NP[md["body"]](a).astype(F32)
@@ -370,6 +381,8 @@ def sub_blocks(st):
 
 def model_imports(md) -> list[tuple[str, int]]:
     """Opset imports of an inlined model, from its description alone."""
+    if md["kind"] == "ml_only":
+        return [("ai.onnx.ml", md["mlv"])]
     if md["kind"] == "if_ml":
         req = [("", since("", n, md["mv"])) for n in ("If", "Constant", "Neg")] + [("", 14)]
         req.append(("ai.onnx.ml", since("ai.onnx.ml", "Scaler", md["mlv"])))
@@ -597,6 +610,8 @@ class Gen:
 
     def model_desc(self):
         rng = self.rng
+        if rng.random() < 0.08:
+            return {"kind": "ml_only", "mlv": rng.choice([1, 2, 3])}
         if rng.random() < 0.12:
             return {"kind": "if_ml", "mv": rng.choice(DEFAULT_VERSIONS), "mlv": rng.choice(ML_VERSIONS)}
         if rng.random() < 0.6:
